@@ -63,6 +63,9 @@ type NoIface struct{ ID, MBeh int }
 // the scripted data is valid JSON (an array of three numbers), so that a helper which
 // normalises JSON before comparing is also exercised
 func c20Data(id, mbeh, ubeh int) string {
+	if id%5 == 0 && id%7 != 0 { // characters that JSON writers may or may not escape
+		return fmt.Sprintf("[%d,%d,%d,%q]", ubeh, id, mbeh, "a<b&c>d")
+	}
 	if id%7 == 0 { // long payload (several KiB): the interesting part of a difference may sit in the middle
 		return fmt.Sprintf("[%d,%d,%d,%q]", ubeh, id, mbeh, strings.Repeat("payload-", 400))
 	}
@@ -106,6 +109,11 @@ func c20Marshal(id, mbeh int) ([]byte, error) {
 // unmarshal behaviours (first field of the data): 0 set the encoded value; 1 set a
 // different value; 2 error only; 3 error and a value; 4 panic.
 func c20Unmarshal(data []byte) (id, mbeh int, set bool, err error) {
+	defer func() { // decoded in place, as hex.Decode(text, text) style unmarshalers do: the bytes handed over are used up
+		for i := range data {
+			data[i] = '#'
+		}
+	}()
 	s := strings.TrimSuffix(string(data), "#other")
 	s = strings.NewReplacer(" ", "", "\n", "", "[", "", "]", "").Replace(s)
 	parts := strings.Split(s, ",")
@@ -382,6 +390,9 @@ func c20ExpectedData(s c20Spec) string {
 	// the marshaler always writes unmarshal-behaviour 0 into its output; a case that is used in both
 	// directions and wants another unmarshal behaviour therefore cannot also expect the right data
 	if !s.DataRight {
+		if s.ID%5 == 0 && s.ID%7 != 0 { // the same JSON value with the HTML-sensitive characters escaped: other data
+			return strings.NewReplacer("<", `\u003c`, ">", `\u003e`, "&", `\u0026`).Replace(d)
+		}
 		if s.ID%7 == 0 { // same length, same head and tail, one byte in the middle differs
 			b := []byte(d)
 			b[len(b)/2] ^= 1
@@ -574,7 +585,7 @@ func (h c20TypeHelper[T]) AssertEqual(t test.TestingT, expected, actual T, failI
 // helper numbers: 0 MarshalText 1 UnmarshalText 2 MarshalBinary 3 UnmarshalBinary 4 MarshalJSON 5 UnmarshalJSON
 var c20HelperNames = []string{"MarshalText", "UnmarshalText", "MarshalBinary", "UnmarshalBinary", "MarshalJSON", "UnmarshalJSON"}
 
-func c20Invoke[T any](t *c20T, helper int, withHelper bool, specs []c20Spec, mk func(c20Spec) T, newValue func() T) {
+func c20Invoke[T any](t *c20T, helper int, withHelper bool, specs []c20Spec, mk func(c20Spec) T, newValue func() T) (tableModified string) {
 	var th test.TypeHelper[T]
 	if withHelper {
 		wild := false
@@ -629,6 +640,11 @@ func c20Invoke[T any](t *c20T, helper int, withHelper bool, specs []c20Spec, mk 
 		} else {
 			test.UnmarshalText(t, cases, th)
 		}
+		for i, s := range specs {
+			if want := c20ExpectedData(initial(s)); cases[i].Data != want {
+				tableModified = fmt.Sprintf("case %d Data is now %q", i, clipStr(cases[i].Data, 80))
+			}
+		}
 	case 1:
 		cases := make([]test.CaseBinary[T], len(specs))
 		for i, s := range specs {
@@ -640,6 +656,9 @@ func c20Invoke[T any](t *c20T, helper int, withHelper bool, specs []c20Spec, mk 
 		} else {
 			test.UnmarshalBinary(t, cases, th)
 		}
+		// (CaseBinary.Data is a byte slice handed to the unmarshaler as it is: an unmarshaler that decodes in place
+		// changes it, and nothing in the contract says otherwise. Only the string-typed Data of the text and JSON
+		// cases is checked: a string must never change.)
 	default:
 		cases := make([]test.CaseJSON[T], len(specs))
 		for i, s := range specs {
@@ -651,7 +670,13 @@ func c20Invoke[T any](t *c20T, helper int, withHelper bool, specs []c20Spec, mk 
 		} else {
 			test.UnmarshalJSON(t, cases, th)
 		}
+		for i, s := range specs {
+			if want := c20ExpectedData(initial(s)); cases[i].Data != want {
+				tableModified = fmt.Sprintf("case %d Data is now %q", i, clipStr(cases[i].Data, 80))
+			}
+		}
 	}
+	return tableModified
 }
 
 // c20MarID: the identity of the value handed to a marshal helper. A case with a "wrong value"
@@ -675,10 +700,11 @@ func c20ExpID(s c20Spec) int {
 func c20RunList(w *rt.W, helper, typ int, withHelper bool, specs []c20Spec) c20ListJudgement {
 	marshalDir := helper%2 == 0
 	t := &c20T{}
+	modified := ""
 	panicked, msg := rt.Call(func() {
 		switch typ {
 		case 0:
-			c20Invoke(t, helper, withHelper, specs, func(s c20Spec) SV {
+			modified = c20Invoke(t, helper, withHelper, specs, func(s c20Spec) SV {
 				if marshalDir || s.Constraint == 1 {
 					return SV{ID: c20MarID(s), MBeh: s.MBeh}
 				}
@@ -688,7 +714,7 @@ func c20RunList(w *rt.W, helper, typ int, withHelper bool, specs []c20Spec) c20L
 				return SV{ID: c20ExpID(s), MBeh: s.MBeh}
 			}, func() SV { return SV{} })
 		case 1:
-			c20Invoke(t, helper, withHelper, specs, func(s c20Spec) *SP {
+			modified = c20Invoke(t, helper, withHelper, specs, func(s c20Spec) *SP {
 				if s.NilValue && s.Constraint == 2 {
 					return nil
 				}
@@ -701,56 +727,56 @@ func c20RunList(w *rt.W, helper, typ int, withHelper bool, specs []c20Spec) c20L
 				return &SP{ID: c20ExpID(s), MBeh: s.MBeh}
 			}, func() *SP { return &SP{} })
 		case 6:
-			c20Invoke(t, helper, withHelper, specs, func(s c20Spec) SE {
+			modified = c20Invoke(t, helper, withHelper, specs, func(s c20Spec) SE {
 				if marshalDir || s.Constraint == 1 {
 					return SE{ID: c20MarID(s), MBeh: s.MBeh}
 				}
 				return SE{ID: c20ExpID(s), MBeh: s.MBeh}
 			}, func() SE { return SE{} })
 		case 8:
-			c20Invoke(t, helper, withHelper, specs, func(s c20Spec) c20Map {
+			modified = c20Invoke(t, helper, withHelper, specs, func(s c20Spec) c20Map {
 				if marshalDir || s.Constraint == 1 {
 					return c20Map{"id": c20MarID(s), "mbeh": s.MBeh}
 				}
 				return c20Map{"id": c20ExpID(s), "mbeh": s.MBeh}
 			}, func() c20Map { return nil })
 		case 9:
-			c20Invoke(t, helper, withHelper, specs, func(s c20Spec) c20Slice {
+			modified = c20Invoke(t, helper, withHelper, specs, func(s c20Spec) c20Slice {
 				if marshalDir || s.Constraint == 1 {
 					return c20Slice{c20MarID(s), s.MBeh}
 				}
 				return c20Slice{c20ExpID(s), s.MBeh}
 			}, func() c20Slice { return nil })
 		case 7:
-			c20Invoke(t, helper, withHelper, specs, func(s c20Spec) c20Iface {
+			modified = c20Invoke(t, helper, withHelper, specs, func(s c20Spec) c20Iface {
 				if s.ID%2 == 0 {
 					return SV{ID: c20MarID(s), MBeh: s.MBeh}
 				}
 				return &SP{ID: c20MarID(s), MBeh: s.MBeh}
 			}, func() c20Iface { return nil })
 		case 3:
-			c20Invoke(t, helper, withHelper, specs, func(s c20Spec) TextOnly {
+			modified = c20Invoke(t, helper, withHelper, specs, func(s c20Spec) TextOnly {
 				if marshalDir || s.Constraint == 1 {
 					return TextOnly{ID: c20MarID(s), MBeh: s.MBeh}
 				}
 				return TextOnly{ID: c20ExpID(s), MBeh: s.MBeh}
 			}, func() TextOnly { return TextOnly{} })
 		case 4:
-			c20Invoke(t, helper, withHelper, specs, func(s c20Spec) JSONOnly {
+			modified = c20Invoke(t, helper, withHelper, specs, func(s c20Spec) JSONOnly {
 				if marshalDir || s.Constraint == 1 {
 					return JSONOnly{ID: c20MarID(s), MBeh: s.MBeh}
 				}
 				return JSONOnly{ID: c20ExpID(s), MBeh: s.MBeh}
 			}, func() JSONOnly { return JSONOnly{} })
 		case 5:
-			c20Invoke(t, helper, withHelper, specs, func(s c20Spec) *BinaryOnly {
+			modified = c20Invoke(t, helper, withHelper, specs, func(s c20Spec) *BinaryOnly {
 				if marshalDir || s.Constraint == 1 {
 					return &BinaryOnly{ID: c20MarID(s), MBeh: s.MBeh}
 				}
 				return &BinaryOnly{ID: c20ExpID(s), MBeh: s.MBeh}
 			}, func() *BinaryOnly { return &BinaryOnly{} })
 		default:
-			c20Invoke(t, helper, withHelper, specs, func(s c20Spec) NoIface { return NoIface{ID: s.ID, MBeh: s.MBeh} }, func() NoIface { return NoIface{} })
+			modified = c20Invoke(t, helper, withHelper, specs, func(s c20Spec) NoIface { return NoIface{ID: s.ID, MBeh: s.MBeh} }, func() NoIface { return NoIface{} })
 		}
 	})
 	w.Eval(1)
@@ -763,6 +789,9 @@ func c20RunList(w *rt.W, helper, typ int, withHelper bool, specs []c20Spec) c20L
 	if panicked {
 		w.Fail("panic-escaped:"+c20HelperNames[helper], "list", args(), "panic: "+strings.SplitN(msg, "\n", 2)[0], "no panic", "a panic escaped the helper\n"+msg)
 		return j
+	}
+	if modified != "" {
+		w.Fail("case-table-modified:"+c20HelperNames[helper], "list", args(), modified, "the caller's case table as it was", c20HelperNames[helper]+" let the (un)marshaler write into the caller's case table: the next use of the table is judged against other data")
 	}
 	switch j.verdict {
 	case oFail:
